@@ -26,6 +26,7 @@ const (
 	SAbortSt200  Step = "abort-status-200" // c.AbortWithStatus(200): must replace a pending non-200 status too
 	SSilent      Step = "silent"           // first step of a handler that records no events (the built-in 404 responder)
 	SDefault404  Step = "default-404"      // http.NotFound: status 404 unless committed, then the body
+	SAddErr      Step = "add-error"        // Context.AddError: recorded for the OnError hook, invisible to the chain
 )
 
 // Behaviour is the body of one handler: a sequence of steps.
@@ -102,7 +103,7 @@ func RunChain(bs []Behaviour, abortCode int) ChainResult {
 					pendingStatus = 200
 				}
 				aborted = true
-			case SSilent:
+			case SSilent, SAddErr:
 			case SDefault404:
 				if !res.Committed {
 					pendingStatus = 404
